@@ -251,6 +251,34 @@ def c14_run(rep, rng, tier, term):
                 return
     names = list(AnsiFormat.__members__)
     pick = names if tier != 'quick' else (names[:120] + rng.sample(names, 150))
+    # the same setting given in different spellings must behave the same through a history, not only on
+    # a one-character string: apply it twice with overlapping ranges around a competing setting
+    def scenario(form, other):
+        s = AnsiString('0123456789')
+        s.apply_formatting(form, 0, 8)
+        s.apply_formatting(other, 2, 9)
+        s.apply_formatting(form, 4, 6)
+        s.apply_formatting(form, 1, 3, topmost=False)
+        t = s[3:] + s[:3]
+        return value_obs(s), value_obs(t)
+    def check_scenario(kind, ref_form, forms, payload):
+        other = AnsiFormat.BLUE if 'BLUE' not in str(payload) else AnsiFormat.GREEN
+        ref = call(lambda: scenario(ref_form, other))
+        for f in forms:
+            got = call(lambda: scenario(f, other))
+            p = dict(payload); p['form'] = repr(f); p['scenario'] = 'apply(X,0,8); apply(other,2,9); apply(X,4,6); apply(X,1,3,topmost=False); s[3:]+s[:3]'
+            rep.count(p, True)
+            if got != ref:
+                viol.append({'oracle': 'C14.' + kind + '.history', 'case': p,
+                             'msg': 'spelling %r behaves differently from %r when applied repeatedly: %s vs %s' % (f, ref_form, str(got)[:300], str(ref)[:300])})
+                return
+    for name in (names[:40] + rng.sample(names, 40 if tier == 'quick' else 400)):
+        sp = spellings(name, rng)
+        check_scenario('names', AnsiFormat[name], sp[:3] + [[sp[1]], AnsiFormat[name].ansi_settings[0] if len(AnsiFormat[name].ansi_settings) == 1 else sp[0]], {'name': name})
+    for form_set in ([31, '31', '[31', [31], 'red'], [[38, 5, 214], '38;5;214', '[38;5;214', [38, [5, 214]], 'color256(214)', AnsiFormat.color256(214)],
+                     [AnsiFormat.rgb(1, 2, 3), 'rgb(1,2,3)', 'rgb(0x010203)', [38, 2, 1, 2, 3], '38;2;1;2;3'],
+                     [AnsiFormat.ul_rgb(1, 2, 3), 'ul_rgb(1,2,3)'], ['bold;italic', ['bold', 'italic'], [1, 3], ('bold', ['italic'])]):
+        check_scenario('forms', form_set[0], form_set[1:], {'forms': repr(form_set)})
     for name in pick:
         sp = spellings(name, rng)
         check_equal('names', AnsiFormat[name], sp, {'name': name})
@@ -475,13 +503,19 @@ C16_PATTERNS = [('a', False), ('ab', False), ('A', False), ('b+', True), ('a*', 
 def c16_run(rep, rng, tier, term):
     viol = []
     g = Gen(rng, odd=False)
-    vals = impl.build_values(rng, 120 if tier == 'quick' else 4000, odd=False)
+    vals = impl.build_values(rng, 300 if tier == 'quick' else 6000, odd=False)
     for (o, ops, i) in vals:
         if not isinstance(o, AnsiString):
             continue
-        for _ in range(4 if tier == 'quick' else 6):
+        for _ in range(6 if tier == 'quick' else 8):
             base = o.base_str
-            if rng.random() < 0.4 and base:
+            pts = [k for k in o._fmts if 0 < k < len(base)]
+            if pts and rng.random() < 0.45:
+                # a match that straddles a style change point (settings start or stop strictly inside it)
+                k = rng.choice(pts)
+                a_, b_ = max(0, k - rng.choice([1, 1, 2])), min(len(base), k + rng.choice([1, 1, 2, 3]))
+                pat, regex = base[a_:b_], False
+            elif rng.random() < 0.4 and base:
                 k = rng.randrange(len(base)); pat, regex = base[k:k + rng.choice([1, 2, 3])], False
             else:
                 pat, regex = rng.choice(C16_PATTERNS)
